@@ -33,6 +33,11 @@ CONSTANTS MaxSegs,     \* segments per input
           Emit
 
 \* ---- inputs ---------------------------------------------------------------
+\* A segment holds no statement keyword past its first token (resynchronisation would stop there).  The driver
+\* concretises segments from pools that respect this; in addition every malformed segment of the pools, and every
+\* statement WITH inner keywords that breaks after the last of them (a WITH clause without its main statement, a
+\* truncated INSERT ... SELECT, ...), is enumerated as the first segment of <<malformed, well-formed>> with one
+\* well-formed statement of every kind after it: what a failed statement leaves in the parser never reaches the next.
 Seg == {s \in [good : BOOLEAN, len : 1..MaxLen, kw : BOOLEAN] : s.good => s.kw}
 Inputs == [segs : UNION {[1..n -> Seg] : n \in 0..MaxSegs},
            lead : 0..1,            \* stray semicolons before the first statement
